@@ -53,7 +53,7 @@ func c02Invalid(r *rand.Rand, i int) (string, string) {
 }
 
 func c02Updates(c *ctx) {
-	c.R.Rule = "update-loop histories through the real binary: (1) Consul backend, alternating valid and invalid-by-construction manual configurations (unknown command, missing argument, bad weight, unbalanced quotes, weight without source, garbage, >4KiB and >64KiB texts) interleaved with service changes; after every barrier the active table must equal the model, which changes only on valid input, while 8 clients request a route present in every valid generation; (2) custom backend fed valid arrays, invalid JSON, null, bad definitions and HTTP 500. evaluations = update steps checked; non-trivial = step that follows an invalid update (the next valid one must still be applied) or an invalid step itself; distinct by step text"
+	c.R.Rule = "update-loop histories through the real binary: (1) Consul backend, alternating valid and invalid-by-construction manual configurations (unknown command, missing argument, bad weight, unbalanced quotes, weight without source, garbage, >4KiB and >64KiB texts) interleaved with service changes; after every barrier the active table must equal the model, which changes only on valid input (a service change while the manual configuration is invalid is valid input: it is applied together with the last valid manual configuration), while 8 clients request a route present in every valid generation; (2) custom backend fed valid arrays, invalid JSON, null, bad definitions and HTTP 500. evaluations = update steps checked; non-trivial = step that follows an invalid update (the next valid one must still be applied) or an invalid step itself; distinct by step text"
 	var wg sync.WaitGroup
 	wg.Add(2)
 	go func() { defer wg.Done(); c02Consul(c) }()
@@ -219,9 +219,9 @@ func c02Consul(c *ctx) {
 			}
 			pushSvcs()
 			desc = "service change " + id
-			if manIsValid {
-				activeSv, activeMan = svcTable(), manValid
-			}
+			// a valid service configuration is applied whatever the state of the manual one: while that is invalid the
+			// last valid manual configuration stays in force
+			activeSv, activeMan = svcTable(), manValid
 		}
 		if err := rg.barrier(); err != nil {
 			c.R.Inconcl("barrier %d: %v", i, err)
@@ -241,6 +241,8 @@ func c02Consul(c *ctx) {
 			sig := "c02b:active-table-differs"
 			if prevInvalid && manIsValid {
 				sig = "c02b:valid-update-after-invalid-not-applied"
+			} else if !manIsValid && strings.HasPrefix(desc, "service change") {
+				sig = "c02b:valid-service-update-not-applied-while-manual-config-invalid"
 			} else if !manIsValid {
 				sig = "c02b:invalid-update-changed-table"
 			}
